@@ -11,6 +11,7 @@ Decided
   F1  effects of Merger.merge: every write / delete / in-place map store is under the output directory; inputs are loaded
       without memory mapping
   +   the probe list the Merger iterates is the caller's list in the caller's order (not sorted / de-duplicated / reversed / filtered)
+  +   the mapping that collects the re-keyed metadata rows of one file is created empty inside the per-file loop
 Not decided: tie order beyond "stable + probe order of concatenation"; dtype promotion of the in-place additions.
 """
 import ast
@@ -440,6 +441,25 @@ def s1_offsets(ctx):
                     else:
                         kv, vv = (unparse(x) for x in items[0].target.elts)
                         okz = dv in unparse(g.expand(rd[0].args[0])) and Pat().m('%s + %s' % (kv, ov), g.expand(st_[0].targets[0].slice)) and unparse(st_[0].value) == vv
+    # the mapping written for ONE file holds the rows of that file only: it is created empty inside the per-file loop (rows carried over from the previous file would be
+    # written, re-keyed, into a file whose probe has no such row)
+    if node is not None:
+        f_home = [f_ for f_ in g_all if any(n_ is node for n_ in ast.walk(f_.node))][0]
+        accs = {a_.targets[0].value.id for a_ in ast.walk(node) if isinstance(a_, ast.Assign) and isinstance(a_.targets[0], ast.Subscript) and isinstance(a_.targets[0].value, ast.Name)} | \
+               {c_.func.value.id for c_ in ast.walk(node) if isinstance(c_, ast.Call) and q.method_name(c_) in ('update', 'setdefault') and isinstance(c_.func.value, ast.Name)}
+        outer = [a_ for a_ in f_home.ancestors(node) if isinstance(a_, (ast.For, ast.While))]
+        for acc in sorted(accs):
+            inits = [a_ for a_ in f_home.nodes(ast.Assign) if any(isinstance(t_, ast.Name) and t_.id == acc for t_ in a_.targets) and
+                     (isinstance(a_.value, ast.Dict) and not a_.value.keys or (isinstance(a_.value, ast.Call) and dotted(a_.value.func) in ('dict', 'OrderedDict', 'collections.OrderedDict') and not a_.value.args))]
+            if not inits:
+                ctx.undecided('C11.S1', f_home, 'creation of the mapping `%s` that collects the re-keyed rows not recognised' % acc)
+                continue
+            inside = [a_ for a_ in inits if outer and q.contains(outer[0], a_)]
+            if not outer or inside:
+                ctx.holds('C11.S1', f_home, 'the mapping written for one metadata file is created empty for that file', (inside or inits)[0])
+            else:
+                ctx.violated('C11.S1', f_home, inits[0], 'the mapping `%s` that collects the re-keyed rows is created once, outside the loop over the metadata files: rows of the previous file are '
+                             'carried into the next one, so a cluster whose probe lacks that file gets another field\'s value' % acc)
     # positional pairing: the offsets of ALL probes are zipped with ALL probes (a filtered / re-ordered list of directories shifts every later probe to a wrong offset)
     misaligned = None
     for lp2 in g.nodes(ast.For):
